@@ -327,12 +327,13 @@ class Theory:
             with macro.level <= self.check_level.
         
         """
-        if seq.rule == "":
+        if seq.rule == "" and seq.th is None:
             # Empty line in the proof
             return None
 
-        if seq.rule == "sorry":
-            # Gap in the proof
+        if seq.rule == "sorry" or seq.rule == "":
+            # Gap in the proof. A line that states a sequent without giving
+            # a rule is an unproved statement like sorry.
             assert seq.th is not None, "sorry must have explicit statement."
             if no_gaps:
                 raise CheckProofException("gaps are not allowed")
